@@ -14,7 +14,7 @@ from props import ingest_common as ic
 
 PROP = "C02"
 # the command-line commits are driven by this check only: whatever fails in them (also plain losslessness) is reported here
-CLAUSES = {"identity-not-functional", "identity-not-injective", "recommit-same", "recommit-changed", "cli-error",
+CLAUSES = {"identity-not-functional", "identity-not-injective", "recommit-same", "recommit-changed", "recommit-config-delimiter", "cli-error",
            "error@cli", "lossless@cli", "oversize-not-refused@cli"}
 
 
